@@ -126,7 +126,75 @@ def int_values(rng, tier):
     return sorted(vals)
 
 
+# ---- long inputs: "every length" includes lengths beyond any table, buffer or counter width an implementation may size for "the longest
+# ---- address": raw AND encoded lengths around 2^8 … 2^12 (thorough: … 2^16) for every expansion ratio of the codecs of the statement
+_RATIOS = (1.0, 1.365658237, 1.375, 1.6, 2.0)     # raw bytes, Base58 (log 256 / log 58), Monero blocks (11/8), Base32 (8/5), hex
+B58_LONG_CAP = {"quick": 1100, "thorough": 4200}        # radix conversion is super-quadratic in the library: longer strings skip Base58 only
+
+
+def long_lengths(tier):
+    out = set()
+    for k in range(8, 13 if tier == "quick" else 17):
+        for r in _RATIOS:
+            c = int((1 << k) / r)
+            # quick: the last length at or below and the first above each threshold up to 2^10, the first above beyond (the model run's wire
+            # time grows with the total size)
+            out |= {c - 1, c, c + 1, c + 2} if tier == "thorough" else {c, c + 1} if k <= 10 else {c + 1}
+    return sorted(out)
+
+
+def long_byte_strings(rng, tier):
+    out = []
+    for i, ln in enumerate(long_lengths(tier)):
+        cls = (i + rng.randrange(2)) % 4
+        if cls == 0 or cls == 1:
+            b = bytes(rng.getrandbits(8) for _ in range(ln))
+        elif cls == 2:
+            z = rng.randrange(1, 9)
+            b = bytes(z) + bytes(rng.getrandbits(8) for _ in range(ln - z))
+        else:
+            b = b"\xff" * ln
+        out.append(b)
+    return out
+
+
+def _long_cases(b, tier):
+    cls = "long-%d" % (len(b).bit_length() - 1)
+    if len(b) <= B58_LONG_CAP[tier]:
+        for al in ("btc", "xrp"):
+            yield Case("b58enc", [al, hx(b)], cls)
+            yield Case("b58dec", [al, tx(Base58Encoder.Encode(b, ALPH[al]))], cls)
+        yield Case("b58chkenc", ["btc", hx(b)], cls)
+        yield Case("b58chkdec", ["btc", tx(Base58Encoder.CheckEncode(b))], cls)
+        yield Case("b58chkdec", ["xrp", tx(Base58Encoder.CheckEncode(b, Base58Alphabets.RIPPLE))], cls)
+    yield Case("xmrenc", [hx(b)], cls)
+    yield Case("xmrdec", [tx(Base58XmrEncoder.Encode(b))], cls)
+    yield Case("b32enc", [hx(b), "none"], cls)
+    yield Case("b32dec", [tx(Base32Encoder.Encode(b)), "none"], cls)
+    ca = CUSTOM_ALPHABETS[len(b) % 3]
+    yield Case("b32encnp", [hx(b), tx(ca)], cls)
+    yield Case("b32dec", [tx(Base32Encoder.EncodeNoPadding(b, ca)), tx(ca)], cls)
+    yield Case("convbits", [nats(b), 8, 5, 1], cls)
+    yield Case("convbits", [nats(Bech32BaseUtils.ConvertBits(b, 8, 5)), 5, 8, 0], cls)
+    yield Case("scalebytes", [hx(b)], cls)
+    if len(b) <= 1700:          # integers travel as decimal text on the request line (CPython refuses conversions beyond 4300 digits)
+        yield Case("frombytes", [hx(b), "big"], cls)
+        yield Case("frombytes", [hx(b), "little"], cls)
+        v = int.from_bytes(b, "big")
+        yield Case("tobytes", [v, len(b), "little"], cls)
+        yield Case("tobytes", [v, "none", "big"], cls)
+
+
 def gen(rng, tier):
+    yield from _gen_short(rng, tier)
+    for b in long_byte_strings(rng, tier):
+        yield from _long_cases(b, tier)
+    # SCALE byte strings around the 2^14 length threshold of the compact length prefix (two-byte -> four-byte mode)
+    for ln in (16382, 16383, 16384, 16385) + (() if tier == "quick" else (65535, 65536, 70000)):
+        yield Case("scalebytes", [hx(bytes(rng.getrandbits(8) for _ in range(ln)))], "scale-long")
+
+
+def _gen_short(rng, tier):
     bs = byte_strings(rng, tier)
     for b in bs:
         for al in ("btc", "xrp"):
@@ -207,13 +275,16 @@ def gen(rng, tier):
 def relations(rng, tier, rpt):
     """decode(encode(b)) == b evaluated on the implementation alone (the literal property clause)."""
     bad = []
-    n = 0
-    for b in byte_strings(rng, "quick"):
+    n = nchk = 0
+    for b in byte_strings(rng, "quick") + long_byte_strings(rng, "quick"):
         n += 1
-        checks = [
+        checks = [] if len(b) > B58_LONG_CAP["quick"] else [
             ("b58-btc", lambda: Base58Decoder.Decode(Base58Encoder.Encode(b))),
             ("b58-xrp", lambda: Base58Decoder.Decode(Base58Encoder.Encode(b, Base58Alphabets.RIPPLE), Base58Alphabets.RIPPLE)),
             ("b58chk", lambda: Base58Decoder.CheckDecode(Base58Encoder.CheckEncode(b))),
+            ("b58chk-xrp", lambda: Base58Decoder.CheckDecode(Base58Encoder.CheckEncode(b, Base58Alphabets.RIPPLE), Base58Alphabets.RIPPLE)),
+        ]
+        checks += [
             ("xmr", lambda: Base58XmrDecoder.Decode(Base58XmrEncoder.Encode(b))),
             ("b32", lambda: Base32Decoder.Decode(Base32Encoder.Encode(b))),
             ("b32np", lambda: Base32Decoder.Decode(Base32Encoder.EncodeNoPadding(b, CUSTOM_ALPHABETS[0]), CUSTOM_ALPHABETS[0])),
@@ -227,6 +298,7 @@ def relations(rng, tier, rpt):
             ("binary-text", lambda: BytesUtils.FromBinaryStr(BytesUtils.ToBinaryStr(b, 8 * len(b)), 2 * len(b)) if b else b),
             ("binary-text-bytes-argument", lambda: BytesUtils.FromBinaryStr(BytesUtils.ToBinaryStr(b, 8 * len(b)).encode("ascii"), 2 * len(b)) if b else b),
         ]
+        nchk += len(checks)
         for name, f in checks:
             try:
                 r = f()
@@ -237,5 +309,112 @@ def relations(rng, tier, rpt):
                             "relation": "decode(encode(b)) != b on the implementation",
                             "input": b.hex(), "impl_output": r.hex() if isinstance(r, bytes) else str(r),
                             "model_output": b.hex(), "no_failing_input": False})
-    rpt.extra["impl_roundtrips"] = n * 14
-    return bad[:10]
+    rpt.extra["impl_roundtrips"] = nchk
+    bad = bad[:10]
+    bad += _integer_byte_helpers(rng, tier, rpt)
+    return bad[:16]
+
+
+def _integer_byte_helpers(rng, tier, rpt):
+    """The integer/byte helpers are exact inverses and equal the standard conversion in EVERY representation their documented parameters select:
+    both byte orders x unsigned / two's complement (`signed`), fixed and automatic widths, every argument given by position or by name; the
+    list and binary-text forms likewise. CPython's own int.from_bytes / int.to_bytes / format are the reference."""
+    bad = []
+    seen = set()
+    n = 0
+
+    def rep(what, inp, got, want):
+        if what not in seen:
+            seen.add(what)
+            bad.append({"property": "C11", "entry_point": what, "request_lines": [], "relation": what, "input": inp,
+                        "impl_output": str(got)[:300], "model_output": str(want)[:300], "no_failing_input": False})
+
+    def call(f):
+        try:
+            return f()
+        except Exception as ex:  # noqa
+            return "raised %s" % type(ex).__name__
+
+    # byte strings -> integers -> byte strings: all of length 0..1, a spread of length 2 (thorough: all), sign-bit / 0x00 / 0xff patterns at
+    # the widths the library uses (4, 8, 16, 32, 33, 64) and random ones
+    bs = [b""] + [bytes([i]) for i in range(256)]
+    bs += [bytes([i, j]) for i in range(256) for j in range(256)] if tier == "thorough" else \
+        [bytes([i, j]) for i in (0, 1, 0x7f, 0x80, 0xfe, 0xff) for j in (0, 1, 0x7f, 0x80, 0xfe, 0xff)] + [bytes([rng.getrandbits(8), rng.getrandbits(8)]) for _ in range(60)]
+    for ln in (3, 4, 8, 16, 32, 33, 64, rng.randrange(5, 100)):
+        for first in (0x00, 0x7f, 0x80, 0xff):
+            for last in (0x00, 0x7f, 0x80, 0xff):
+                bs.append(bytes([first]) + bytes(rng.getrandbits(8) for _ in range(ln - 2)) + bytes([last]))
+        bs += [b"\xff" * ln, bytes(ln), b"\x80" + bytes(ln - 1), bytes(ln - 1) + b"\x80", b"\x7f" + b"\xff" * (ln - 1)]
+    for b in bs:
+        for e in ("big", "little"):
+            for sg in (False, True):
+                n += 1
+                want = int.from_bytes(b, byteorder=e, signed=sg)
+                forms = [("ToInteger(b, endianness=, signed=)", lambda: BytesUtils.ToInteger(b, endianness=e, signed=sg)),
+                         ("ToInteger(b, e, s) positional", lambda: BytesUtils.ToInteger(b, e, sg))]
+                if not sg:
+                    forms.append(("ToInteger(b, endianness=) signed omitted", lambda: BytesUtils.ToInteger(b, endianness=e)))
+                if e == "big":
+                    forms.append(("ToInteger(b, signed=) endianness omitted", lambda: BytesUtils.ToInteger(b, signed=sg)))
+                for name, f in forms:
+                    got = call(f)
+                    if got != want:
+                        rep("BytesUtils.%s is not the standard %s-endian %s value of the bytes" % (name, e, "two's complement" if sg else "unsigned"),
+                            "b=%s endianness=%s signed=%s" % (b.hex() or "(empty)", e, sg), got, want)
+                if b:
+                    back = call(lambda: IntegerUtils.ToBytes(want, len(b), endianness=e, signed=sg))
+                    if back != b:
+                        rep("IntegerUtils.ToBytes(BytesUtils.ToInteger(b)) != b (%s-endian, signed=%s)" % (e, sg), "b=%s" % b.hex(),
+                            back.hex() if isinstance(back, bytes) else back, b.hex())
+                    via = call(lambda: IntegerUtils.ToBytes(BytesUtils.ToInteger(b, endianness=e, signed=sg), len(b), e, sg))
+                    if via != b:
+                        rep("the helpers' own round trip ToBytes(ToInteger(b, e, signed), len(b), e, signed) != b (%s-endian, signed=%s)" % (e, sg), "b=%s" % b.hex(),
+                            via.hex() if isinstance(via, bytes) else via, b.hex())
+        # list and reversal forms
+        n += 1
+        if call(lambda: BytesUtils.ToList(b)) != list(b) or call(lambda: BytesUtils.FromList(list(b))) != b:
+            rep("BytesUtils.ToList / FromList are not the byte values in order", b.hex(), "%s / %s" % (call(lambda: BytesUtils.ToList(b)), call(lambda: BytesUtils.FromList(list(b)))), list(b))
+        if call(lambda: BytesUtils.Reverse(b)) != b[::-1]:
+            rep("BytesUtils.Reverse is not the reversed byte string", b.hex(), call(lambda: BytesUtils.Reverse(b)), b[::-1].hex())
+    # integers -> byte strings -> integers: the whole two's complement range of width 1, edges and random values of the other widths
+    ints = [(v, 1) for v in range(-128, 128)]
+    for w in (2, 3, 4, 8, 16, 32, 33, 64):
+        lo, hi = -(1 << (8 * w - 1)), (1 << (8 * w - 1)) - 1
+        ints += [(v, w) for v in (lo, lo + 1, -257, -256, -255, -129, -128, -127, -2, -1, 0, 1, 127, 128, 255, 256, hi - 1, hi) if lo <= v <= hi]
+        ints += [(rng.randrange(lo, hi + 1), w) for _ in range(6 if tier == "quick" else 200)]
+    for v, w in ints:
+        for e in ("big", "little"):
+            n += 1
+            want = v.to_bytes(w, byteorder=e, signed=True)
+            got = call(lambda: IntegerUtils.ToBytes(v, w, endianness=e, signed=True))
+            if got != want:
+                rep("IntegerUtils.ToBytes(v, n, %s, signed=True) is not the standard two's complement encoding" % e, "v=%d n=%d" % (v, w), got.hex() if isinstance(got, bytes) else got, want.hex())
+            back = call(lambda: BytesUtils.ToInteger(want, endianness=e, signed=True))
+            if back != v:
+                rep("BytesUtils.ToInteger(IntegerUtils.ToBytes(v, n, signed=True), signed=True) != v (%s-endian)" % e, "v=%d n=%d bytes=%s" % (v, w, want.hex()), back, v)
+            if v >= 0:
+                # the same non-negative value in the unsigned representation of the same width, and in the automatic (minimal) width
+                u = call(lambda: IntegerUtils.ToBytes(v, w, endianness=e))
+                if u != v.to_bytes(w, byteorder=e):
+                    rep("IntegerUtils.ToBytes(v, n, %s) is not the standard unsigned encoding" % e, "v=%d n=%d" % (v, w), u.hex() if isinstance(u, bytes) else u, v.to_bytes(w, byteorder=e).hex())
+                mw = max(1, (v.bit_length() + 7) // 8)
+                a = call(lambda: IntegerUtils.ToBytes(v, endianness=e))
+                if a != v.to_bytes(mw, byteorder=e) or call(lambda: IntegerUtils.GetBytesNumber(v)) != mw:
+                    rep("IntegerUtils.ToBytes(v) with automatic width is not the minimal-width unsigned encoding (%s-endian)" % e, "v=%d" % v,
+                        a.hex() if isinstance(a, bytes) else a, v.to_bytes(mw, byteorder=e).hex())
+                if call(lambda: BytesUtils.ToInteger(v.to_bytes(mw, byteorder=e), endianness=e)) != v:
+                    rep("BytesUtils.ToInteger(IntegerUtils.ToBytes(v)) != v (automatic width, %s-endian)" % e, "v=%d" % v,
+                        call(lambda: BytesUtils.ToInteger(v.to_bytes(mw, byteorder=e), endianness=e)), v)
+    # binary text of integers: standard digits, zero padded on the left to the asked width, and back (str and bytes argument)
+    for v, pad in [(0, 0), (0, 8), (1, 0), (1, 11), (255, 8), (255, 4), (256, 8), (2**32 - 1, 32), (2**32, 32)] + \
+            [(rng.getrandbits(rng.choice([1, 7, 8, 11, 33, 64, 256])), rng.choice([0, 8, 11, 32, 264])) for _ in range(40 if tier == "quick" else 600)]:
+        n += 1
+        want = format(v, "b").zfill(pad)
+        got = call(lambda: IntegerUtils.ToBinaryStr(v, pad))
+        if got != want or (pad == 0 and call(lambda: IntegerUtils.ToBinaryStr(v)) != want):
+            rep("IntegerUtils.ToBinaryStr is not the zero-padded standard binary text", "v=%d zero_pad_bit_len=%d" % (v, pad), got, want)
+        for form, arg in (("str", want), ("bytes", want.encode("ascii"))):
+            if call(lambda: IntegerUtils.FromBinaryStr(arg)) != v:
+                rep("IntegerUtils.FromBinaryStr(ToBinaryStr(v)) != v (%s argument)" % form, "v=%d text=%s" % (v, want), call(lambda: IntegerUtils.FromBinaryStr(arg)), v)
+    rpt.extra["integer_byte_helper_checks"] = n
+    return bad[:6]
